@@ -453,7 +453,9 @@ func runC18(rc *RunCtx) {
 	simrt.Quiesce()
 	rc.Nontrivial = true
 	for _, l := range capt.recs {
-		if strings.Contains(l, "Panic in") {
+		if strings.Contains(l, "the code under test ended the process") {
+			rc.Failf("process-exit-on-network-input", "the server called os.Exit / log.Fatal while handling network input: %s", l)
+		} else if strings.Contains(l, "Panic in") {
 			rc.Failf("recovered-panic-logged", "the server recovered from a panic while handling network input: %s", l)
 		}
 	}
